@@ -80,10 +80,15 @@ func c20Direct(evs []c20Ev, n int) string {
 // c20Findings: include (and flag) the input class of the known defect candidates.
 func c20Findings() bool { return os.Getenv("VERIF_FINDINGS") != "" }
 
+// c20Parts: the three parts register themselves (each lives in its own file).
+var c20Parts = map[string]func(*Ctx){}
+
 func c20(c *Ctx) {
-	c20Builder(c)
-	c20Shipped(c)
-	c20Generated(c)
+	for _, part := range []string{"builder", "shipped", "generated"} {
+		if f := c20Parts[part]; f != nil {
+			f(c)
+		}
+	}
 	c.Rule = "(1) builder: random event streams for the REAL builder (parsers/tm/ast via verif hook) vs the Lean mirror: well-nested streams generated from random trees (empty nodes at starts/ends/equal offsets, equal ranges, containers delayed past later siblings as fixWhitespace does), and ill-nested perturbations; tree shape (type, off, end, children recursively) and WellNested verdicts compared; " +
 		"(2) shipped parsers tm/js/json/test on the inputs of their own tests and all .tm grammars of the repository, byte/token mutations, truncations and random bytes: direct O(n²) nesting check of the listener stream in Go, no panic, real ast trees (tm, js) vs the mirror on those streams; " +
 		"(3) generated parsers from conflict-free random CFGs with nested arrow annotations, with/without recovery rules, fixWhitespace and blanks: direct check, hypotheses InputWF/XWF of the Lean theorem evaluated on every table, every run replayed by the Lean runtime model; " +
